@@ -136,6 +136,9 @@ pub struct Case {
     /// 2 = initialise exactly the delivered bytes, copy, advance
     #[serde(default)]
     pub reader_style: u8,
+    /// 1 = the simulated AsyncWrite is vectored-write capable
+    #[serde(default)]
+    pub writer_style: u8,
 }
 
 impl Case {
@@ -160,6 +163,7 @@ impl Case {
             cut: None,
             n: vec![],
             reader_style: 0,
+            writer_style: 0,
         }
     }
 
